@@ -87,8 +87,10 @@ CheckUrlDec(ev) == LET r == UrlDec(ev.in) IN
                    IF r.ok THEN ~Threw(ev) /\ ev.out = r.v ELSE Threw(ev)
 
 \* ---- checksums, CRC, MD5, AES ------------------------------------------------------------------------
-CheckSum(ev) == CASE ev.e = "Sum8" -> ev.ret = CheckSum8(ev.in)
-                  [] ev.e = "Sum16" -> ev.ret = CheckSum16(ev.in)
+\* ver = the real function applied to (input, zero-padded to whole words for the 16-bit sum) ++ (the checksum it returned)
+Even(x) == x \o (IF Len(x) % 2 = 1 THEN <<0>> ELSE <<>>)
+CheckSum(ev) == CASE ev.e = "Sum8" -> ev.ret = CheckSum8(ev.in) /\ ev.ver = CheckSum8(ev.in \o <<ev.ret>>)
+                  [] ev.e = "Sum16" -> ev.ret = CheckSum16(ev.in) /\ ev.ver = CheckSum16(Even(ev.in) \o <<ev.ret \div 256, ev.ret % 256>>)
                   [] ev.e = "Crc16" -> ev.ret = Crc16(ev.in)
                   [] ev.e = "Crc32" -> ev.ret = Crc32(ev.in)
 \* digests = the distinct digests observed over all the splits of msg into update calls that the driver tried
